@@ -128,17 +128,9 @@ theorem perRef_ro (p : Program) (pipe : Callable) (self : Env) (sib sib' : Strin
         exact projectMember_dropKey o h t env hho
     · rfl
 
-theorem remove_output_graph (ti : TypeInfo) (p : Program) (hok : RemOutOK x o ti p = true) :
-    deepGraph (ti.removeOutput x o) (outStep x o p) = (deepGraph ti p).map (remNodeOut x o) := by
-  simp only [RemOutOK, Bool.and_eq_true, bne_iff_ne, ne_eq, List.all_eq_true] at hok
-  obtain ⟨⟨⟨⟨hx, hfx⟩, hall⟩, htopok⟩, hax⟩ := hok
-  have hax' := typesAvoid_parts hax
-  cases hxc : p.find? x with
-  | none => simp [hxc] at hfx
-  | some xc =>
-  simp only [hxc, Bool.and_eq_true, List.all_eq_true, Bool.or_eq_true, bne_iff_ne, ne_eq, beq_iff_eq] at hfx
-  obtain ⟨⟨hcons, houtsE⟩, hretE⟩ := hfx
-  have hp' : outStep x o p = { p with callables := p.callables.map (FRo x o) } := by
+theorem outStep_eq (p : Program) (xc : Callable) (hxc : p.find? x = some xc)
+    (hcons : ∀ c ∈ p.callables, ¬c.name = x ∨ (c.isPipe = xc.isPipe ∧ c.outs = xc.outs) ∧ c.ret = xc.ret) :
+    outStep x o p = { p with callables := p.callables.map (FRo x o) } := by
     unfold outStep
     rw [hxc]
     cases hxp : xc.isPipe with
@@ -168,6 +160,18 @@ theorem remove_output_graph (ti : TypeInfo) (p : Program) (hok : RemOutOK x o ti
           | inr h => rw [h.1.1, hxp]
         simp [hn, hk]
       · simp [hn]
+
+theorem remove_output_graph (ti : TypeInfo) (p : Program) (hok : RemOutOK x o ti p = true) :
+    deepGraph (ti.removeOutput x o) (outStep x o p) = (deepGraph ti p).map (remNodeOut x o) := by
+  simp only [RemOutOK, Bool.and_eq_true, bne_iff_ne, ne_eq, List.all_eq_true] at hok
+  obtain ⟨⟨⟨⟨hx, hfx⟩, hall⟩, htopok⟩, hax⟩ := hok
+  have hax' := typesAvoid_parts hax
+  cases hxc : p.find? x with
+  | none => simp [hxc] at hfx
+  | some xc =>
+  simp only [hxc, Bool.and_eq_true, List.all_eq_true, Bool.or_eq_true, bne_iff_ne, ne_eq, beq_iff_eq] at hfx
+  obtain ⟨⟨hcons, houtsE⟩, hretE⟩ := hfx
+  have hp' := outStep_eq x o p xc hxc hcons
   let ok : String → Prop := fun base => base ≠ x
   have hmo : ∀ base, ok base → membersOf (ti.removeOutput x o) base = membersOf ti base := by
     intro base hb
